@@ -883,6 +883,11 @@ func (r *envelopingReader) Read(data []byte) (n int, err error) {
 			// That is the end of the current message (possibly a zero-length
 			// one), not of the stream: the next call looks for the next message.
 			err = nil
+		} else if limited, ok := r.current.(*io.LimitedReader); ok && limited.N > 0 && errors.Is(err, io.EOF) {
+			// The body ended right after the envelope, before the message
+			// it announced: that is not a normal end of the request.
+			r.err = io.ErrUnexpectedEOF
+			err = r.err
 		}
 	}
 	return offset + n, err
